@@ -48,6 +48,13 @@ def showGroups (out : List Dep) : String :=
 structure HParsed where
   ops : List HOp
 
+/-- `<id>` (the whole delivery) or `<id>=<nonces>` (one resource group of it) -/
+def idGroup (arg : String) : Option (Nat × List Nat) :=
+  match arg.splitOn "=" with
+  | [id] => id.toNat?.map fun i => (i, List.range 64)
+  | [id, ns] => do let i ← id.toNat?; let g ← natList ns; pure (i, g)
+  | _ => none
+
 def parseHOps (s : String) : Option (List HOp) :=
   (items s "/").mapM fun x => do
     let body := if x.length ≤ 1 then "" else (x.drop 1).toString
@@ -58,9 +65,9 @@ def parseHOps (s : String) : Option (List HOp) :=
     let arg := if arg = "" then "-" else arg
     match x.front with
     | 'D' => do let ns ← natList arg; pure (HOp.deliver ns f)
-    | 'S' => do let id ← arg.toNat?; pure (HOp.outcome id true f)
-    | 'F' => do let id ← arg.toNat?; pure (HOp.outcome id false f)
-    | 'T' => do let id ← arg.toNat?; pure (HOp.lost id)
+    | 'S' => do let (id, grp) ← idGroup arg; pure (HOp.outcome id grp true f)
+    | 'F' => do let (id, grp) ← idGroup arg; pure (HOp.outcome id grp false f)
+    | 'T' => do let (id, grp) ← idGroup arg; pure (HOp.lost id grp)
     | 'R' => do
       let ns ← natList arg
       pure (HOp.retry (ns.zipIdx.map fun (n, i) => ({ dest := 2, res := 97, key := n, idx := i } : Dep)) 97 2 f)
